@@ -619,3 +619,95 @@ def impulse_response(rows, out, K):
             nx[a] = val
         x = nx
     return h
+
+
+def _rename_u(v, name):
+    if isinstance(v, Form):
+        if 'u' in v:
+            f = Form(v)
+            f[name] = f.get(name, 0.0) + f.pop('u')
+            return f
+        return v
+    if isinstance(v, list):
+        return [_rename_u(x, name) for x in v]
+    if isinstance(v, tuple) and v and v[0] == 'some':
+        return ('some', _rename_u(v[1], name))
+    if isinstance(v, tuple):
+        return tuple(_rename_u(x, name) for x in v)
+    return v
+
+
+def transient(m, ctor, args, K):
+    """Abstract execution in the linear-form domain from the constructor's initial state: the k-th delivered value is
+    the symbol u<k>; integer cells, lengths and presence are concrete (they are functions of the configuration and of k
+    only), float cells are linear forms over u0..u<k>.  Returns (outputs, problems): outputs[k] is the Form reported by
+    last() after the k-th update, None when nothing is reported, or the string 'nl' when it is not a linear form."""
+    mms = [x for x in m.ctor_models if x['fn'].name == ctor and x['init'] is not None]
+    if not mms:
+        return None, ['no constructor %s' % ctor]
+    mm = mms[0]
+    ev0 = LinEval({}, mm['vg'].loops, args)
+    for c in mm['pre']:
+        try:
+            if ev0.ev(c) is False:
+                return None, ['rejected']
+        except NonConst:
+            pass
+    state = {}
+    problems = []
+    for cell, t in mm['init'].items():
+        if isinstance(t, tuple) and t and t[0] in ('arg',) and t[1] not in args:
+            continue    # the child view itself
+        try:
+            state[cell] = ev0.ev(t)
+        except NonConst:
+            problems.append('initial value of %s not evaluable' % cell)
+    problems += ev0.problems
+    outs = []
+    for k in range(K):
+        ev = LinEval(state, m.up_vg.loops)
+        chosen = None
+        for ex in m.up_exits:
+            from .terms import nondelivering
+            if nondelivering(ex.pc, ('view',)):
+                continue
+            feas = True
+            for c in ex.pc:
+                if isinstance(c, tuple) and c and c[0] == 'inloop':
+                    continue
+                try:
+                    val = ev.ev(c)
+                except NonConst:
+                    val = None
+                if val is False:
+                    feas = False
+                    break
+            if feas:
+                chosen = ex
+                break
+        if chosen is None:
+            problems.append('step %d: no feasible exit' % k)
+            break
+        new_state = dict(state)
+        for cell, t in chosen.fields.items():
+            try:
+                new_state[cell] = ev.ev(t)
+            except NonConst:
+                problems.append('step %d: cannot evaluate %s' % (k, cell))
+        problems += ['step %d: %s' % (k, p) for p in ev.problems]
+        state = {c: _rename_u(v, 'u%d' % k) for c, v in new_state.items()}
+        ev2 = LinEval(state, m.last_vg.loops)
+        try:
+            out = ev2.ev(m.last_ret)
+        except NonConst:
+            out = 'nl'
+        if isinstance(out, tuple) and out and out[0] == 'some':
+            out = out[1]
+        elif isinstance(out, tuple) and out and out[0] == 'none':
+            out = None
+        if out is not None and not isinstance(out, Form):
+            out = 'nl'
+        if isinstance(out, Form) and any(a.startswith('nl:') for a in out):
+            out = 'nl'
+        outs.append(out)
+    return outs, problems
